@@ -951,11 +951,15 @@ class Decompiler(object):
         if codeobject.co_varnames[:1] == ('.0',):
             return func_decompiler.ast  # generator
         argnames, vararg, kwarg = inspect.getargs(codeobject)
+        # inspect.getargs() lists keyword-only arguments after the positional ones
+        kwonly = argnames[codeobject.co_argcount:]
+        argnames = argnames[:codeobject.co_argcount]
+        posonly = argnames[:codeobject.co_posonlyargcount]
         args = ast.arguments(
-            posonlyargs=[],
-            args=[ast.arg(arg=v) for v in argnames],
-            kwonlyargs=[],
-            kw_defaults=[],
+            posonlyargs=[ast.arg(arg=v) for v in posonly],
+            args=[ast.arg(arg=v) for v in argnames[len(posonly):]],
+            kwonlyargs=[ast.arg(arg=v) for v in kwonly],
+            kw_defaults=[None for v in kwonly],
             defaults=defaults,
             vararg=ast.arg(arg=vararg) if vararg else None,
             kwarg=ast.arg(arg=kwarg) if kwarg else None
